@@ -29,7 +29,7 @@ CHECKS = {
    technique="TLA+ model (TLC exhaustive) + replay + TLC trace validation"),
  "C09": dict(cat="model_checking", design="5 C09",
    text="Cycle level: TufClient.tla/MC_Bounds serves oversized and endless streams for every request, never-ending chains of valid roots, every relation of size, pinned length and limit (including limit 0 and size-1 byte); TLC checks SizesBounded, RequestsBounded, RootRequestsBounded, LegitNotRefused; replays run with 1 KiB transport chunks and the bytes actually pulled per request are checked against the bound inside the trace specification.",
-   note="Trusted: as C02; unit 4096 bytes. Delegation graphs with cycles are handled by the delegation check once built.",
+   note="Trusted: as C02; unit 4096 bytes. Delegation part: Delegation.tla (graph and layered modes) enumerates every list of up to 3-4 delegation edges incl. self/mutual delegation and shared roles; each is loaded for real with normal and 3x-padded delegated files; termination, request count and legitimate sizes are judged. F13 (shared role fetched once per path) is a recorded finding.",
    technique="TLA+ model (TLC exhaustive) + replay + TLC trace validation with per-request byte counts"),
  "C14": dict(cat="model_checking", design="5 C14",
    text="Same model as C03 (MC_Rollback chains rotating timestamp keys, snapshot keys, overlapping sets, none); TLC checks RecoversAfterRotation for every history; replays use concrete versions 1, 2^40, 2^63-1; traces validated by TLC. The F2 facet (cycle started from a shipped root other than the one trusted last) is a recorded finding.",
@@ -54,6 +54,11 @@ CHECKS = {
    text="Http.tla transcribes RetryStream (current_try, next_byte, has_range_support, may_retry, build_request) against a server that answers every request with any response of the property's alphabet, with or without Accept-Ranges; TLC checks PrefixOnly, OkMeansComplete, RequestsAtMostTries, RangeOnlyIfAnnounced, NotFoundClass, ClientErrorsFailFast for tries 1..4 and sizes 0..3 units. Every terminal path is replayed against the real HttpTransport and a scripted raw-TCP server (unit 1 B .. 64 KiB, i.e. up to 192 KiB resources; stalls as silence past the request timeout); the server's request log (Range headers) and the bytes yielded are judged by the property and compared with the model.",
    note="Trusted: TLC, the local TCP stack, reqwest's classification of a body timeout as retryable. Connection resets / malformed responses are outside the property's alphabet.",
    technique="TLA+ model of the retry state machine (TLC exhaustive) + replay against the real transport and a scripted HTTP server"),
+
+ "C07": dict(cat="model_checking", design="5 C07",
+   text="Delegation.tla (tree mode) holds one repository per state: every delegation tree over up to 3 delegated roles, every set of names each edge matches and each role lists. It transcribes Targets::find_target and Targets::validate and states the property's own definition of the authorized entry (first in pre-order whose whole chain matches); TLC checks FindMeetsSpec and LoadedMeansAuthorized on all 262 k repositories. Each enumerated repository (quick: all with 2 delegated roles) is built with real metadata - match sets realised as literals, dir/*, '?' patterns and hash prefixes, names partly needing resolution - loaded, and every name read; the digest requested under consistent snapshots shows which role's entry is enforced.",
+   note="Trusted: TLC; glob semantics abstracted to match sets (patterns never put '/' under a wildcard); depth 3, 2-3 names; fan-out 3 with 6 names is not reached.",
+   technique="TLA+ model of lookup and validation (TLC exhaustive) + replay of every enumerated repository through load/read_target"),
 }
 NA_REASON = "check not built yet in this round (planned, see DESIGN.md section 5); not claimed"
 
